@@ -215,6 +215,16 @@ func genC06(c *Ctx, r *rng.R, i int) {
 	// constructors over the two values
 	try(c, "TupleVal", func() cty.Value { return cty.TupleVal([]cty.Value{v, w}) })
 	try(c, "ObjectVal", func() cty.Value { return cty.ObjectVal(map[string]cty.Value{"a": v, "é": w}) })
+	// two spellings of one attribute name / map key (precomposed and decomposed) with values of
+	// different types: whichever survives, type and value must agree (repeated: Go map order decides)
+	for k := 0; k < 6; k++ {
+		try(c, "ObjectVal(names equal after normalisation)", func() cty.Value {
+			return cty.ObjectVal(map[string]cty.Value{"h\u00e9llo": v, "he\u0301llo": w, "z": v})
+		})
+		try(c, "MapVal(keys equal after normalisation)", func() cty.Value {
+			return cty.MapVal(map[string]cty.Value{"h\u00e9llo": v, "he\u0301llo": v, "z": v})
+		})
+	}
 	try(c, "ListVal", func() cty.Value { return cty.ListVal([]cty.Value{v, w}) })
 	try(c, "SetVal", func() cty.Value { return cty.SetVal([]cty.Value{v, w, v}) })
 	try(c, "MapVal", func() cty.Value { return cty.MapVal(map[string]cty.Value{"k": v, "Å": w}) })
